@@ -90,6 +90,26 @@ CollapseFails(r) ==
     ELSE Need(r.hash[1] = r.hash[2] /\ r.tpl = r.tpl2, "template.frozen", r.hash[1])
          \o PlacedFails(r.inst, r.classes, r.tpl, r.res)
 
+(* ---- instance inputs / outputs through the proxy ------------------------------------------- *)
+\* r.src: entities of the file BEFORE it is read [name, cls, outs]; r.inst [name, style, fix]; r.conns: outputs of
+\* the func_instance; r.placed: outputs of each new entity; r.opre / r.opost: outputs of the outside entity
+IoFails(r) ==
+    LET body == {j \in 1..Len(r.src) : ~IsProxyEnt(r.src[j])}
+        idx == [k \in 1..Cardinality(body) |-> CHOOSE j \in body : Cardinality({q \in body : q < j}) = k - 1]
+    IN IF Len(r.placed) # Cardinality(body) THEN Fail("io.count", Cardinality(body))
+       ELSE Flat([k \in 1..Len(r.placed) |->
+                    LET e == PlacedOuts(r.inst, r.src, idx[k], r.conns) IN
+                    Need([m \in 1..Len(r.tplouts[k]) |-> r.tplouts[k][m]] = KeptOuts(r.src, idx[k]), "io.file", KeptOuts(r.src, idx[k]))
+                    \o Need(r.placed[k] = e, "io.outputs", e)])
+            \o (IF Len(r.opre) # Len(r.opost) THEN Fail("io.input.count", Len(r.opre))
+                ELSE Flat([k \in 1..Len(r.opre) |->
+                    LET x == r.opre[k] y == r.opost[k] IN
+                    IF ~InputHits(r.inst, r.src, x) THEN Need(y = x, "io.input.untouched", x)
+                    ELSE LET e == MergedInput(r.inst, r.src, x) IN
+                         IF y.ii # NoPart THEN Fail("io.input.match", e)
+                         ELSE Need(y.t = e.t, "io.input.target", e)
+                              \o Need([y EXCEPT !.t = e.t] = e, "io.input.merge", e)]))
+
 (* ---- the machine: steps and whole runs --------------------------------------------- *)
 NormEnt(e) == [e EXCEPT !.ang = ToAngle(FromAngle(@))]
 NormSeq(s) == [j \in 1..Len(s) |-> NormEnt(s[j])]
@@ -138,6 +158,7 @@ Fails(r) == CASE r.k = "subst" -> SubstFails(r)
               [] r.k = "collapse" -> CollapseFails(r)
               [] r.k = "step" -> StepFails(r)
               [] r.k = "run" -> RunFails(r)
+              [] r.k = "io" -> IoFails(r)
 
 Init == i = 0
 Next == i < N /\ i' = i + 1
